@@ -149,8 +149,12 @@ def _socket(t: Tally, entry, data, r, k, case, allow_close=True, max_execs=300_0
     ex = EnvExplorer(data, drive, allow_close=allow_close, max_execs=max_execs)
 
     def check(e):
-        delivered = data[:e.sock.delivered]
+        # the finite source is what the peer sends before it closes: everything, unless this execution took the close alternative.  A generator
+        # that stops while the peer is still open and has more to send has left that remainder unconsumed.
+        delivered = data[:e.sock.delivered] if e.sock.closed else data
         why = _judge(list(e.obs[0]), e.obs[1], delivered, k)
+        if why and not e.sock.closed and e.sock.delivered < len(data):
+            why += " (the generator stopped although the peer had neither closed nor finished sending)"
         return None if why is None else (why, e.obs, e.sock.delivered)
 
     try:
@@ -341,7 +345,7 @@ def replay(case):
                 except Livelock:
                     items, end = [], "livelock"
             got = [_raw(case["entry"], i) for i in items]
-            why = _judge(got, end if isinstance(end, str) else end[0], data[:sock.delivered], case["k"])
+            why = _judge(got, end if isinstance(end, str) else end[0], data[:sock.delivered] if sock.closed else data, case["k"])
             if why:
                 return {"sig": {"kind": "termination" if end != "stop" else "framing", "source": "socket"},
                         "case": case, "note": why, "observed": {"n_items": len(got), "end": end}}
